@@ -118,6 +118,12 @@ func (e *Exec) BoltOptions(o OpenOpts) *bolt.Options {
 	if o.GivePageSize {
 		bo.PageSize = e.Cfg.PageSize
 	}
+	if o.WrongPageSize {
+		bo.PageSize = e.Cfg.PageSize * 2
+		if bo.PageSize > 16384 {
+			bo.PageSize = 1024
+		}
+	}
 	return bo
 }
 
